@@ -1330,3 +1330,206 @@ def search_c02(ctx):
 
 
 P.PROPS["C02"]["search"] = search_c02
+
+
+# ---------------------------------------------------------------- C19 (Markdown matcher, line level)
+
+def c19_keywords(ctx):
+    reqs = []
+    indents = ["", " ", "   "] if S.n_for(0, 1) == 0 else ["", " ", "  ", "   ", "\t"]
+    for code, role, k in S.all_keywords():
+        ms = S.mstate(code)
+        if role in S.TITLE_ROLES:
+            kind = S.ROLE_KIND[role]
+            for depth in range(0, 8):
+                for ind in indents:
+                    reqs.append(("match_md", [kind, ms, False, ind + "#" * depth + " " + k + ": the title \n", 4]))
+            reqs.append(("match_md", [kind, ms, False, "##" + k + ": no blank\n", 4]))
+            reqs.append(("match_md", [kind, ms, False, "##\t" + k + ":tab\r\n", 4]))
+            reqs.append(("match_md", [kind, ms, False, k + ": no header prefix\n", 4]))
+            reqs.append(("match_md", [kind, ms, True, "# " + k + ":\n", 4]))
+            reqs.append(("match_md", [kind, ms, False, "## " + k + " missing colon\n", 4]))
+        else:
+            for b in "*+-":
+                for ind in indents:
+                    for gap in ("", " ", "  "):
+                        reqs.append(("match_md", ["StepLine", ms, False, ind + b + gap + k + "step text \n", 7]))
+            reqs.append(("match_md", ["StepLine", ms, False, k + "no bullet\n", 7]))
+            reqs.append(("match_md", ["StepLine", ms, False, "# " + k + "header not bullet\n", 7]))
+    return differential("md-keywords", reqs, nontrivial=lambda q, r: (q[1][1]["dialect"], q[1][3]) if r.get("ans") else None,
+                        classify=lambda q, r: q[1][0] + (":yes" if r.get("ans") else ":no"), exhaustive=True)
+
+
+def c19_tables_tags(ctx):
+    reqs = []
+    ms = S.mstate("en")
+    rows = ["| a | b |", "| --- | :-: |", "|---|", "| a | - |", "|:--|--:|", "| x \\| y |", "|", "| -x |", "| - \\n |", "a | b"]
+    for n in range(0, 9):
+        for ws in (" ", "\t", "\xa0"):
+            for row in rows:
+                reqs.append(("match_md", ["TableRow", ms, False, ws * n + row + "\n", 2]))
+    r = rng("c19")
+    parts = ["`@a`", "`@tag-1`", "`@`", "`x`", "`@un closed", "@bare", "`@a``@b`", " ", "  ", "text", "`@é😀`", "``", "`@a\tb`", "`"]
+    for _ in range(S.n_for(3000, 40000)):
+        line = r.choice(["", " ", "   "]) + "".join(r.choice(parts) for _ in range(r.randint(0, 6))) + r.choice(["", "\n"])
+        if line.strip() == "" and not line:
+            line = " "
+        reqs.append(("match_md", ["TagLine", ms, False, line or " ", 5]))
+    for line in ["`@smoke` `@smoke`", " `@smoke-slow` `@smoke`", "`@ab` `@a`", "  `@a` and `@b`\n"]:
+        reqs.append(("match_md", ["TagLine", ms, False, line, 5]))
+    return differential("md-tables-tags", reqs, nontrivial=lambda q, x: q[1][3] if x.get("ans") else None,
+                        classify=lambda q, x: q[1][0] + (":yes" if x.get("ans") else ":no"))
+
+
+def c19_feature_fallback(ctx):
+    ms = S.mstate("en")
+    lines = ["# Feature: f\n", "Feature: f\n", "plain first line\n", "## Feature: deep\n", "#Feature: x\n", "  # Feature: indented\n", "# Funcionalidade: pt\n"]
+    reqs = [("match_md", ["FeatureLine", S.mstate(d), seen, l, 1]) for l in lines for seen in (False, True) for d in ("en", "pt")]
+    return differential("md-feature-line", reqs, nontrivial=lambda q, x: canon(q[1]), classify=lambda q, x: "ans:%s" % x.get("ans"), exhaustive=True)
+
+
+prop("C19", streams=[c19_keywords, c19_tables_tags, c19_feature_fallback], sources=DIALECT_SOURCES,
+     rule="every (dialect, role, keyword) x header depth 0..7 / bullet x indentation x blank run through GherkinInMarkdownTokenMatcher.match_*; "
+          "table rows at indentation 0..8 incl. GFM separator rows; tag lines built from backtick fragments; non-trivial = recognised lines",
+     trusted=["hand-written stand-ins for the five Markdown regular expressions (MatcherMd.v), tied to `re` by this enumeration"])
+
+
+# ---------------------------------------------------------------- dialect-table oracles / searches (C05, C10)
+
+def minimal_doc(code, d, role, k):
+    """the canonical minimal document exercising keyword k of `role` in dialect `code`"""
+    head = "" if code == "en" else "# language: %s\n" % code
+    f, sc, so, ex, giv = d["feature"][0], d["scenario"][0], d["scenarioOutline"][0], d["examples"][0], [x for x in d["given"] if x != "* "][0]
+    if role == "feature":
+        return head + k + ": name\n", ("feature", "keyword")
+    if role == "rule":
+        return head + f + ": f\n  " + k + ": name\n", ("rule", "keyword")
+    if role == "background":
+        return head + f + ": f\n  " + k + ": name\n    " + giv + "x\n", ("background", "keyword")
+    if role in ("scenario", "scenarioOutline"):
+        return head + f + ": f\n  " + k + ": name\n    " + giv + "x\n", ("scenario", "keyword")
+    if role == "examples":
+        return head + f + ": f\n  " + so + ": o\n    " + giv + "<a>\n    " + k + ": name\n      | a |\n      | 1 |\n", ("examples", "keyword")
+    return head + f + ": f\n  " + sc + ": s\n    " + giv + "first\n    " + k + "second\n", ("step", role)
+
+
+def o_c05_minimal(ctx):
+    impl = impl_mod()
+    D = S.dialects()
+    items = S.all_keywords()
+    TYPE = {"given": "Context", "when": "Action", "then": "Outcome", "and": "Conjunction", "but": "Conjunction"}
+
+    def check(it):
+        code, role, k = it
+        d = D[code]
+        src, (what, sub) = minimal_doc(code, d, role, k)
+        res = impl.parse(False, "en", src)
+        if "ok" not in res:
+            return {"what": "minimal document for %s keyword %r of dialect %s is rejected: %r" % (role, k, code, res.get("errors", res))[:400], "source": src}
+        f = res["ok"].get("feature")
+        if not f or f.get("language") != code:
+            return {"what": "feature does not report dialect %s" % code, "source": src}
+        if what == "feature":
+            got = f["keyword"]
+        elif what == "step":
+            st = f["children"][0]["scenario"]["steps"]
+            if len(st) != 2:
+                return {"what": "step keyword %r of %s not recognised as a step" % (k, code), "source": src}
+            got = st[1]["keyword"]
+            steps = d["given"] + d["when"] + d["then"] + d["and"] + d["but"]
+            first = [x for x in steps if (k + "second").startswith(x)][0]
+            if got != first:
+                return {"what": "step keyword reported %r, first listed prefix is %r" % (got, first), "source": src}
+            n = sum(1 for r_ in TYPE for x in d[r_] if x == first)
+            want = "Unknown" if n > 1 else [TYPE[r_] for r_ in TYPE if first in d[r_]][0]
+            if st[1]["keywordType"] != want:
+                return {"what": "keywordType %r for %r (%s), expected %s" % (st[1]["keywordType"], first, code, want), "source": src}
+            return None
+        else:
+            ch = f["children"][0]
+            node = ch.get("rule") or ch.get("background") or ch.get("scenario")
+            if what == "examples":
+                node = ch["scenario"]["examples"][0] if ch.get("scenario") and ch["scenario"]["examples"] else None
+            if node is None or (what in ("rule", "background", "scenario") and what not in ch):
+                return {"what": "%s keyword %r of %s not recognised in its role" % (role, k, code), "source": src}
+            got = node["keyword"]
+        if got != k:
+            return {"what": "%s keyword reported as %r, listed as %r (%s)" % (role, got, k, code), "source": src}
+        return None
+    c = oracle("minimal-documents", items, check, describe=lambda it: list(it))
+    c.exhaustive = True
+    return c
+
+
+def o_json_identity(ctx):
+    from common import REPO
+    c = Corr("json-identity")
+    c.evaluations = 1
+    a = open(os.path.join(REPO, "gherkin-languages.json"), "rb").read()
+    b = open(os.path.join(REPO, "python", "gherkin", "gherkin-languages.json"), "rb").read()
+    if a != b:
+        ja, jb = json.loads(a), json.loads(b)
+        diff = [k for k in set(ja) | set(jb) if ja.get(k) != jb.get(k)]
+        c.disagreements.append({"what": "python/gherkin/gherkin-languages.json differs from the master table (dialects %r)" % diff[:5]})
+    # the table the package actually loads
+    use = impl_mod()
+    from gherkin.dialect import DIALECTS
+    want = json.loads(b)
+    for code in want:
+        for role in S.ROLES:
+            if DIALECTS.get(code, {}).get(role) != want[code][role]:
+                c.disagreements.append({"what": "in-memory table differs from the shipped JSON for %s.%s" % (code, role)})
+                break
+    c.nontrivial = {"bytes", "memory"}
+    c.samples = [{"files": ["gherkin-languages.json", "python/gherkin/gherkin-languages.json"]}]
+    return c
+
+
+P.PROPS["C05"]["streams"] = [o_json_identity, o_c05_minimal] + P.PROPS["C05"]["streams"]
+
+
+def search_c05(ctx):
+    c = o_c05_minimal(ctx)
+    if c.disagreements:
+        d = c.disagreements[0]
+        return {"what": d["what"], "text": d.get("source"), "input": d.get("input")}
+    c = o_json_identity(ctx)
+    if c.disagreements:
+        return {"what": c.disagreements[0]["what"]}
+    return None
+
+
+P.PROPS["C05"]["search"] = search_c05
+
+
+def o_c10_conjunctions(ctx):
+    """every and/but keyword of every dialect after a given step: the pickle step takes the type before it"""
+    impl = impl_mod()
+    D = S.dialects()
+    items = [(code, k) for code, d in D.items() for k in dict.fromkeys(d["and"] + d["but"]) if k not in d["given"] + d["when"] + d["then"]]
+
+    def check(it):
+        code, k = it
+        d = D[code]
+        giv = [x for x in d["given"] if x != "* "][0]
+        head = "" if code == "en" else "# language: %s\n" % code
+        for outline in (False, True):
+            src = head + d["feature"][0] + ": f\n  " + (d["scenarioOutline"][0] if outline else d["scenario"][0]) + ": s\n    " + giv + "first\n    " + k + "second\n"
+            if outline:
+                src += "    " + d["examples"][0] + ":\n      | a |\n      | 1 |\n"
+            ev = impl.events(False, False, True, [["u", src]])
+            ps = [e["pickle"] for e in ev.get("envelopes", []) if "pickle" in e]
+            if len(ps) != 1 or len(ps[0]["steps"]) != 2:
+                continue   # the keyword is shadowed by an earlier listed prefix: C05's business
+            types = [s["type"] for s in ps[0]["steps"]]
+            if types != ["Context", "Context"]:
+                return {"what": "and/but keyword %r of %s after a given step: pickle step types %r" % (k, code, types), "source": src}
+        return None
+    c = oracle("conjunction-keywords", items, check, describe=lambda it: list(it))
+    c.exhaustive = True
+    return c
+
+
+P.PROPS["C10"]["streams"].append(o_c10_conjunctions)
+P.PROPS["C10"]["sources"] = DIALECT_SOURCES
+P.PROPS["C10"]["search"] = lambda ctx: (lambda c: {"what": c.disagreements[0]["what"], "text": c.disagreements[0].get("source")} if c.disagreements else None)(o_c10_conjunctions(ctx))
